@@ -541,8 +541,17 @@ pub fn drive(cases: Vec<Case>, out_path: &str, workers: usize) -> Value {
             std::thread::spawn(move || {
                 let mut w = spawn_worker();
                 let mut res = Vec::new();
+                // a decoder that hangs costs a watchdog period per case: a handful of hangs per worker is verdict
+                // enough, the rest of this worker's share is left out (the summary's case count says so)
+                let mut hangs = 0;
                 for (i, c) in chunk {
+                    if hangs >= 4 {
+                        break;
+                    }
                     let mut v = run_one(&mut w, &c.bytes);
+                    if v["out"] == "hang" {
+                        hangs += 1;
+                    }
                     let o = v.as_object_mut().unwrap();
                     o.insert("e".into(), json!("decode"));
                     o.insert("id".into(), json!(i));
@@ -573,5 +582,5 @@ pub fn drive(cases: Vec<Case>, out_path: &str, workers: usize) -> Value {
         }
     }
     f.flush().unwrap();
-    json!({"cases": n, "counts": counts, "ok_nonempty_distinct": distinct.len()})
+    json!({"cases": all.len(), "cases_planned": n, "counts": counts, "ok_nonempty_distinct": distinct.len()})
 }
